@@ -85,6 +85,7 @@ impl VNode for BinOp {}
 impl VNode for UnOp {}
 impl VNode for TokenReference {}
 impl<'a, T: VNode> VNode for &'a T {}
+impl<T: VNode> VNode for Box<T> {}
 
 pub trait GetLeadingTrivia {
     fn leading_trivia(&self) -> Vec<Token>;
